@@ -247,7 +247,39 @@ def eraseAll : List Nat → Graph → Option Graph
   | [], g => some g
   | i :: is, g => (eraseNode g i).bind (eraseAll is)
 
-/-- body of the `for n in mod.graph.nodes` loop for node `n` (positional winner) -/
+/-! ### which nodes a discarded branch consists of: `_erase_discarded_branches` -/
+
+/-- backward marking over `rest = g.drop i`: node `i` is marked iff `ok i` and (`seed i` or a marked
+later node has `i` among its arguments).  Returns the marks of `i, i+1, …`. -/
+def backMarks (ok seed : Nat → Bool) : List Node → Nat → List Bool
+  | [], _ => []
+  | _ :: rest, i =>
+    let m := backMarks ok seed rest (i + 1)
+    (ok i && (seed i || (m.zip rest).any fun p => p.1 && p.2.args.contains i)) :: m
+
+/-- `alive`: the nodes that reach an `output` -/
+def aliveMarks (g : Graph) : List Bool :=
+  backMarks (fun _ => true) (fun i => (g.nd i).op == .output) g 0
+
+def isInput (nd : Node) : Bool := match nd.op with | .input _ => true | _ => false
+
+/-- the ancestors of the discarded outputs that do not reach an output (placeholders excepted) -/
+def ancMarks (g : Graph) (discarded : List Nat) : List Bool :=
+  let al := aliveMarks g
+  backMarks (fun i => !(al.getD i false) && !(isInput (g.nd i))) (fun i => discarded.contains i) g 0
+
+/-- … and everything computed from them (outputs excepted) -/
+def regionMarks (g : Graph) (discarded : List Nat) : List Bool :=
+  let anc := ancMarks g discarded
+  scanFrom (fun acc nd => anc.getD acc.length false ||
+    (nd.op != .output && nd.args.any fun a => acc.getD a false)) [] g
+
+/-- the nodes of the discarded branches, last first (the order in which they are erased) -/
+def regionDesc (g : Graph) (discarded : List Nat) : List Nat :=
+  ((List.range g.length).filter fun i => (regionMarks g discarded).getD i false).reverse
+
+/-- body of the `for n in mod.graph.nodes` loop for node `n`: positional winner,
+`replace_all_uses_with`, erase the combiner, erase the discarded branches (nothing else) -/
 def exportCombiner (win : String → Nat) (g : Graph) (n : Nat) : Option Graph :=
   match (g.nd n).op with
   | .combine c =>
@@ -255,14 +287,35 @@ def exportCombiner (win : String → Nat) (g : Graph) (n : Nat) : Option Graph :
     match outs[win c]? with
     | none => none                                  -- `n.args[0][best_idx]`: IndexError
     | some best =>
-      -- `all_input_nodes` lists every input once; exactly one of them `is best_node`
-      let losers := outs.eraseDups.filter (· != best)
-      (eraseNode (replaceUses n best g) n).bind (eraseAll losers)
+      let discarded := outs.eraseDups.filter (· != best)
+      (eraseNode (replaceUses n best g) n).bind fun g2 => eraseAll (regionDesc g2 discarded) g2
   | _ => some g
 
 def exportLoop (win : String → Nat) : Nat → Nat → Graph → Option Graph
   | 0, _, g => some g
   | t + 1, n, g => (exportCombiner win g n).bind (exportLoop win t (n + 1))
+
+/-- `export_graph` on the node list (`none` = the real function raises).  No generic dead-code
+elimination: statements of the user's code whose result is unused stay where they are. -/
+def exportGraph (win : String → Nat) (g : Graph) : Option Graph := exportLoop win g.length 0 g
+
+/-! ### the rule before the "erase discarded branches" fix, for the regression witnesses: the
+outputs of the discarded branches erased by hand, then `Graph.eliminate_dead_code` -/
+
+def exportCombinerDce (win : String → Nat) (g : Graph) (n : Nat) : Option Graph :=
+  match (g.nd n).op with
+  | .combine c =>
+    let outs := (g.nd n).args
+    match outs[win c]? with
+    | none => none
+    | some best =>
+      let losers := outs.eraseDups.filter (· != best)
+      (eraseNode (replaceUses n best g) n).bind (eraseAll losers)
+  | _ => some g
+
+def exportLoopDce (win : String → Nat) : Nat → Nat → Graph → Option Graph
+  | 0, _, g => some g
+  | t + 1, n, g => (exportCombinerDce win g n).bind (exportLoopDce win t (n + 1))
 
 def dceStep (g : Graph) (i : Nat) : Graph :=
   if (g.nd i).live && !(g.nd i).impure && !hasUsers g i then g.set i Node.E else g
@@ -274,11 +327,8 @@ def dceLoop : Nat → Graph → Graph
 
 def dce (g : Graph) : Graph := dceLoop g.length g
 
-/-- the surgery before dead-code elimination -/
-def exportPass (win : String → Nat) (g : Graph) : Option Graph := exportLoop win g.length 0 g
-
-/-- `export_graph` on the node list (`none` = the real function raises) -/
-def exportGraph (win : String → Nat) (g : Graph) : Option Graph := (exportPass win g).map dce
+def exportGraphDce (win : String → Nat) (g : Graph) : Option Graph :=
+  (exportLoopDce win g.length 0 g).map dce
 
 /-! ### the rule of the pinned tree (before 463d3d2), for the regression witness -/
 
@@ -521,15 +571,9 @@ def ioSaneB (g : Graph) : Bool :=
   (g.all fun nd => match nd.op with | .input _ => nd.args.isEmpty | _ => true) &&
   ((List.range g.length).all fun i => (g.nd i).op != .output || !hasUsers g i)
 
-/-- winner index in range; a branch output is not a choice node and feeds its combiner only -/
-def disciplineB (win : String → Nat) (g : Graph) : Bool :=
-  (List.range g.length).all fun n =>
-    match (g.nd n).op with
-    | .combine c =>
-      decide (win c < (g.nd n).args.length) &&
-      (g.nd n).args.all fun o =>
-        !(g.nd o).isCombine && (List.range g.length).all fun j => !(g.nd j).args.contains o || j == n
-    | _ => true
+/-- the winner index of every combiner is one of its branches -/
+def winInRangeB (win : String → Nat) (g : Graph) : Bool :=
+  g.all fun nd => match nd.op with | .combine c => decide (win c < nd.args.length) | _ => true
 
 /-- no impure function among the leaves -/
 def pureLeavesB (g : Graph) : Bool := g.all fun nd => nd.impure == nd.isIO
